@@ -618,6 +618,108 @@ def c08_storeat_classify(line, res):
     return ",".join(sorted(cls)) or "no-get-after-storeat"
 
 
+# ---------------- promote (round 2): the real cacheCtl.Get with memory + redis backend (in-process RESP2 fake)
+def parse_pops(s):
+    ops = []
+    for tok in s.split(","):
+        p = tok.split(".")
+        op = dict(k=p[0], at=int(p[1]), key=int(p[2]))
+        if p[0] == "s":
+            op.update(ttls=[] if p[3] == "x" else [int(x) for x in p[3].split("_")], age=0)
+        elif p[0] == "r":
+            op.update(age=int(p[3]), remain=int(p[4]), ttls=[] if p[5] == "x" else [int(x) for x in p[5].split("_")])
+        ops.append(op)
+    return ops
+
+
+def c08_promote_oracle(line, res):
+    """the property on what cacheCtl.Get served, whichever backend it came from: the answer was stored for this key
+    (by this proxy: op s, or by another instance sharing the redis: op r); it is not served at fetch + lifetime + 2 s
+    or later - in particular not because it was copied into the memory cache late in its life; served TTLs <= max 1
+    (ttl - whole seconds since the fetch)"""
+    if res.startswith("HARNESS-ERROR"):
+        return None
+    f = gens.fields(line)
+    ops = parse_pops(f["ops"])
+    toks = res.split(" ")
+    if len(toks) != len(ops):
+        return None
+    mx = int(f["maxttl"])
+    for i, (op, tok) in enumerate(zip(ops, toks)):
+        if op["k"] != "g" or not tok.startswith("H"):
+            continue
+        src = int(tok[1:].split(":")[0])
+        if not (0 <= src < i) or ops[src]["k"] not in ("s", "r") or ops[src]["key"] != op["key"]:
+            return "get #%d served a message nobody stored for this key (%s)" % (i, tok)
+        so = ops[src]
+        L = prop_lifetime_ms(mx, 0, so["ttls"]) if so["k"] == "s" else so["remain"]
+        late = op["at"] - so["at"] - L
+        if late - SLACK >= 2000:
+            return ("get #%d at +%d ms served the answer of op #%d %d ms after the end of its lifetime (fetched %d ms "
+                    "before op #%d, %d ms of lifetime left then; 2 s allowance)" % (i, op["at"], src, late, so["age"], src, L))
+        got = [int(x) for x in tok.split(":")[1].split("_")] if tok.split(":")[1] else []
+        if len(got) != len(so["ttls"]):
+            return "get #%d: record count differs from the stored response" % i
+        dmin = max(0, (op["at"] - so["at"] + so["age"] - SLACK) // 1000)
+        for t0, t1 in zip(so["ttls"], got):
+            if t1 > max(1, t0 - dmin):
+                return "get #%d: served TTL %d > max 1 (%d - %d whole seconds since the fetch)" % (i, t1, t0, dmin)
+    return None
+
+
+def c08_promote_gen(rng, tier):
+    """shape A: Store (lifetime 5-7 s) ... the memory cache loses the key late in the lifetime ... Get (redis hit,
+    promoted) ... probes after fetch + lifetime + 2 s.  shape B: an answer another instance fetched 0.4 s .. 1 year ago
+    with 1.3-3.4 s left sits in redis; Get (promoted); probes.  All on the real clock; ~10 s per case, run in parallel."""
+    out = []
+    for n in range(budget(tier, 16, 240)):
+        ops = []
+        if n % 2 == 0:
+            L = rng.choice([5, 6, 7])
+            d = rng.choice([3300, 3700, L * 1000 - 1300])
+            ttls = [L, rng.choice([300, 86400])]
+            ops.append("s.0.1.%s" % "_".join(map(str, ttls)))
+            ops.append("g.%d.1" % rng.choice([200, 600]))
+            ops.append("x.%d.1" % d)
+            ops.append("g.%d.1" % (d + rng.choice([150, 300])))
+            if rng.random() < 0.5:
+                ops.append("g.%d.1" % (d + 800))
+            end = L * 1000 + 2000 + SLACK
+            ops.append("g.%d.1" % (end + rng.choice([150, 500])))
+            if d + L * 1000 - 1200 > end + 900:
+                ops.append("g.%d.1" % (d + L * 1000 - 1200))       # an entry restarted at promotion would still be live
+        else:
+            age = rng.choice([400, 4500, 10500, 61300, 3600400, 86400600, 31536000500])
+            remain = rng.choice([1300, 1700, 2300, 2600, 3400])
+            ttls = rng.choice([[300], [60, 4294967295], [100000, 7]])
+            ops.append("r.0.1.%d.%d.%s" % (age, remain, "_".join(map(str, ttls))))
+            g1 = rng.choice([200, 500, remain - 600])
+            ops.append("g.%d.1" % g1)
+            if rng.random() < 0.5:
+                ops.append("x.%d.1" % (g1 + 150))
+                ops.append("g.%d.1" % (g1 + 300))
+            end = remain + 2000 + SLACK
+            ops.append("g.%d.1" % (end + rng.choice([150, 600])))
+            ops.append("g.%d.1" % (end + rng.choice([1500, 2600])))
+        out.append("pr%d maxttl=0 ops=%s" % (n, ",".join(ops)))
+    return out
+
+
+def c08_promote_classify(line, res):
+    ops = parse_pops(gens.fields(line)["ops"])
+    toks = res.split(" ")
+    if len(toks) != len(ops):
+        return res.split(" ")[0][:24]
+    cls = set()
+    dropped = False
+    for op, tok in zip(ops, toks):
+        if op["k"] in ("x", "r"):
+            dropped = True               # from here on a hit can only come through redis (promotion)
+        if op["k"] == "g":
+            cls.add(("hit" if tok.startswith("H") else "miss") + ("-via-redis" if dropped else "-memory"))
+    return ("own-store " if ops[0]["k"] == "s" else "foreign-store ") + ",".join(sorted(cls))
+
+
 # ---------------- routerhist (real router, real upstream over TCP, scripted upstream server)
 BEH_L = dict(nx=30000, nd=30000, sf=1000, rf=5000)
 
@@ -774,6 +876,8 @@ PROPS["C08"] = dict(
              compare=retrying_compare("storeat", c08_storeat_oracle1),
              classify=c08_storeat_classify, shards=4,
              nontrivial=lambda l, r: "H" in r or "M" in r, timeout=600),
+        dict(name="promote", gen=c08_promote_gen, oracle=c08_promote_oracle, classify=c08_promote_classify, model=False,
+             nontrivial=lambda l, r: "H" in r, timeout=900),
     ],
     rule="policy: the real initCache + cacheCtl.Store on a real MemoryCache, read back with cacheCtl.Get: every rcode 0..15 "
          "x {record-less, OPT only, TTL catalogue incl. 0, 1, 2^31, 2^32-1}, 17 maximum-TTL settings (default, caps, "
